@@ -121,7 +121,7 @@ def run(ctx):
     ctx.bounds = {'sequence_length': '4/3 (quick) 5/4 (thorough)', 'deviations_k': 1 if quick else 2, 'max_cuts': 5}
     ctx.assumptions = ['fragment data lines are compared in kernpy\'s normal form (taken from its own full export of the joined score, C03)',
                        'cases are labelled first-fragment-has-a-measure / first-fragment-header-only']
-    ctx.pmap(_job, list(X.chunks(jobs, 40)), chunksize=1)
+    ctx.pmap(_job, [[j] for j in D.long_kern_docs(seed, reps=(2,))] + list(X.chunks(jobs, 40)), chunksize=1)
 
 
 def replay(case):
